@@ -220,9 +220,9 @@ class Orientation(object):
         # If any are rational, remove the weight scaling degree of
         # freedom. We must copy to avoid clobbering the original data.
         if cpa.rational or cpb.rational:
-            cps_a = cps_a.copy()
+            cps_a = cps_a.astype(float)
             cps_a[..., -1] /= np.sum(cps_a[..., -1])
-            cps_b = cps_b.copy()
+            cps_b = cps_b.astype(float)
             cps_b[..., -1] /= np.sum(cps_b[..., -1])
 
         # Enumerate all permutations of directions
